@@ -171,3 +171,125 @@ theorem C08_row_perm_invariant (env : Env) (hdr : List Str) (rows rows' : List (
       exact ((hp.filterMap _).filter _).map _
 
 end Gtfs.Static
+
+/-! ## shapes.txt: any row order -/
+
+namespace Gtfs
+
+/-- the sorted permutation is unique: sorting two permutations of one list gives the same result
+    when the order is antisymmetric on its members -/
+theorem mergeSort_eq_of_perm {α} (le : α → α → Bool) (tr : ∀ a b c, le a b = true → le b c = true → le a c = true)
+    (tot : ∀ a b, (le a b || le b a) = true) (l l' : List α) (hp : l'.Perm l)
+    (anti : ∀ a ∈ l, ∀ b ∈ l, le a b = true → le b a = true → a = b) :
+    l'.mergeSort le = l.mergeSort le := by
+  have h1 := List.pairwise_mergeSort (le := le) tr tot l'
+  have h2 := List.pairwise_mergeSort (le := le) tr tot l
+  have hperm : (l'.mergeSort le).Perm (l.mergeSort le) :=
+    (List.mergeSort_perm l' le).trans (hp.trans (List.mergeSort_perm l le).symm)
+  refine List.Perm.eq_of_pairwise (le := fun a b => le a b = true) ?_ h1 h2 hperm
+  intro a b ha hb hab hba
+  exact anti a ((List.mergeSort_perm l le).subset (hperm.subset ha)) b ((List.mergeSort_perm l le).subset hb) hab hba
+
+theorem mem_foldl_dedup {α} [BEq α] [LawfulBEq α] (l acc : List α) : ∀ x,
+    x ∈ l.foldl (fun acc k => if acc.contains k then acc else acc ++ [k]) acc ↔ x ∈ acc ∨ x ∈ l := by
+  induction l generalizing acc with
+  | nil => simp
+  | cons y r ih =>
+    intro x
+    simp only [List.foldl_cons, ih, List.mem_cons]
+    split
+    · next h =>
+      have hy : y ∈ acc := by simpa using h
+      constructor
+      · rintro (h1 | h1)
+        · exact Or.inl h1
+        · exact Or.inr (Or.inr h1)
+      · rintro (h1 | rfl | h1)
+        · exact Or.inl h1
+        · exact Or.inl hy
+        · exact Or.inr h1
+    · simp only [List.mem_append, List.mem_singleton]
+      constructor
+      · rintro ((h1 | h1) | h1)
+        · exact Or.inl h1
+        · exact Or.inr (Or.inl h1)
+        · exact Or.inr (Or.inr h1)
+      · rintro (h1 | h1 | h1)
+        · exact Or.inl (Or.inl h1)
+        · exact Or.inl (Or.inr h1)
+        · exact Or.inr h1
+
+theorem nodup_foldl_dedup {α} [BEq α] [LawfulBEq α] (l acc : List α) (h : acc.Nodup) :
+    (l.foldl (fun acc k => if acc.contains k then acc else acc ++ [k]) acc).Nodup := by
+  induction l generalizing acc with
+  | nil => simpa using h
+  | cons y r ih =>
+    simp only [List.foldl_cons]
+    apply ih
+    split
+    · exact h
+    · next hc =>
+      rw [List.nodup_append]
+      refine ⟨h, by simp, ?_⟩
+      intro a ha b hb
+      simp only [List.mem_singleton] at hb
+      subst hb
+      intro e; subst e
+      exact hc (by simpa using ha)
+
+end Gtfs
+
+namespace Gtfs.Static
+
+theorem mem_dedupKeys (l : List Str) (x : Str) : x ∈ dedupKeys l ↔ x ∈ l := by
+  unfold dedupKeys; rw [mem_foldl_dedup]; simp
+
+theorem nodup_dedupKeys (l : List Str) : (dedupKeys l).Nodup := nodup_foldl_dedup l [] (by simp)
+
+theorem dedupKeys_perm (l l' : List Str) (hp : l'.Perm l) : (dedupKeys l').Perm (dedupKeys l) := by
+  rw [List.perm_ext_iff_of_nodup (nodup_dedupKeys _) (nodup_dedupKeys _)]
+  intro x
+  rw [mem_dedupKeys, mem_dedupKeys]
+  exact hp.mem_iff
+
+/-- **any permutation of the rows of shapes.txt, the points of different shapes arbitrarily
+    interleaved, yields the same shapes with the same points** (distinct shape_pt_sequence within a
+    shape, as the statement's quantifier) -/
+theorem C08_shapes_row_perm_invariant (env : Env) (hdr : List Str) (rows rows' : List (List Str)) (be be' : Bool)
+    (hp : rows'.Perm rows)
+    (hd : (rows.filterMap fun row => shapeRowOf env hdr row).Pairwise (fun a b => a.1 = b.1 → a.2.1 = b.2.1 → a = b)) :
+    parseShapes env ⟨hdr, rows', be'⟩ = parseShapes env ⟨hdr, rows, be⟩ := by
+  unfold parseShapes
+  simp only
+  split
+  · rfl
+  · have hrows : (rows'.filterMap fun row => shapeRowOf env hdr row).Perm (rows.filterMap fun row => shapeRowOf env hdr row) :=
+      hp.filterMap _
+    have hids : (dedupKeys ((rows'.filterMap fun row => shapeRowOf env hdr row).map (·.1))).mergeSort (fun a b => strLe a b)
+        = (dedupKeys ((rows.filterMap fun row => shapeRowOf env hdr row).map (·.1))).mergeSort (fun a b => strLe a b) := by
+      apply mergeSort_eq_of_perm (fun a b : Str => strLe a b) (fun _ _ _ => strLe_trans) (fun a b => by rcases strLe_total a b with h | h <;> simp [h])
+      · exact dedupKeys_perm _ _ (hrows.map _)
+      · intro a _ b _ h1 h2; exact strLe_antisymm h1 h2
+    rw [hids]
+    apply List.map_congr_left
+    intro id _
+    congr 2
+    apply mergeSort_eq_of_perm (fun a b : Str × Int × ShapePoint => decide (a.2.1 ≤ b.2.1)) (fun a b c => intLe_trans a.2.1 b.2.1 c.2.1) (fun a b => intLe_total a.2.1 b.2.1)
+    · exact hrows.filter _
+    · intro a ha b hb h1 h2
+      have ha' := List.mem_filter.mp ha
+      have hb' := List.mem_filter.mp hb
+      have hid : a.1 = b.1 := by
+        have e1 : a.1 = id := by simpa using ha'.2
+        have e2 : b.1 = id := by simpa using hb'.2
+        rw [e1, e2]
+      have hseq : a.2.1 = b.2.1 := by
+        simp only [decide_eq_true_eq] at h1 h2; omega
+      have hall : ∀ x ∈ (rows.filterMap fun row => shapeRowOf env hdr row), ∀ y ∈ (rows.filterMap fun row => shapeRowOf env hdr row),
+          x.1 = y.1 → x.2.1 = y.2.1 → x = y := by
+        have hd'' : (rows.filterMap fun row => shapeRowOf env hdr row).Pairwise (flip fun a b => a.1 = b.1 → a.2.1 = b.2.1 → a = b) :=
+          hd.imp (fun h e1 e2 => (h e1.symm e2.symm).symm)
+        exact List.Pairwise.forall_of_forall_of_flip (fun x _ _ _ => rfl) hd hd''
+      exact hall a ha'.1 b hb'.1 hid hseq
+
+end Gtfs.Static
